@@ -177,6 +177,9 @@ func (db *RockDB) BitSetV2(ts int64, key []byte, offset int64, on int) (int64, e
 			db.IncrTableKeyCount(table, 1, wb)
 		} else if len(v) >= tsLen {
 			v = v[:len(v)-tsLen]
+			// the size is counted from 0: an expired bitmap meta may have left a stale size, and the
+			// mismatch check below would panic in the apply loop
+			bmSize = 0
 			table, rk, _ := extractTableFromRedisKey(key)
 			for i := 0; i < len(v); i += bitmapSegBytes {
 				index := int64(i)
